@@ -270,7 +270,7 @@ def r_optmap(body, result=False):
             raise Unsupported("R-optmap: did not converge")
         m = code_mask(body)
         mo = None
-        for x in re.finditer(r"\.(map|map_or|and_then|ok_or_else|unwrap_or_else|map_err)\(\s*", body):
+        for x in re.finditer(r"\.(map|map_or|and_then|ok_or_else|unwrap_or_else|map_err|filter)\(\s*", body):
             if not m[x.start()]:
                 continue
             close = match_close(body, m, x.end() - 1 - (len(x.group(0)) - len(x.group(0).rstrip())))
@@ -281,6 +281,8 @@ def r_optmap(body, result=False):
             if not clos.startswith("|"):
                 continue   # not a closure literal (e.g. .map(Self)) -> leave to the verifier
             if kind == "map_err" and not result:
+                continue
+            if kind == "filter" and result:
                 continue
             mo = (x, close, kind, parts, clos)
             break
@@ -312,6 +314,10 @@ def r_optmap(body, result=False):
             new = "(match %s { Some(v_) => Ok(v_), None => Err(%s) })" % (recv, cbody)
         elif kind == "unwrap_or_else":
             new = "(match %s { Some(v_) => v_, None => %s })" % (recv, cbody)
+        elif kind == "filter":
+            # Option::filter(|p| C): the closure sees a reference to the payload (an Option receiver is assumed: on an iterator the
+            # rewritten text does not type-check and the function ends undecided)
+            new = "(match %s { Some(v_) => { let keep_ = { let %s = &v_; %s }; if keep_ { Some(v_) } else { None } }, None => None })" % (recv, pat, cbody)
         log.append(("R-optmap", norm_ws(body[j:close + 1])[:200], norm_ws(new)[:240]))
         body = body[:j] + new + body[close + 1:]
 
